@@ -1026,6 +1026,16 @@ def run(ctx, rep):
     output_pushes(F, rep, lf)
     taint(F, rep, lf)
     sort_rule(F, rep)
+    # "RSUs dated at the vest date and priced at the vest-date market value": the awards table prefers the vest pair over the
+    # deposit-day price and is queried with the row's own date and symbol (shared with C19-R1/R2/R3; seeded change C18-s5)
+    import rules.c19 as c19
+    from core import Report
+    r2 = Report("tmp")
+    c19.lookup_shape(F, r2)
+    c19.map_building(F, r2)
+    c19.rsu_arm(F, r2)
+    for o in r2.obligations:
+        rep.ob("R2", "rsu:" + o["instance"], o["ok"], o["detail"], o["site"], key="R2:rsu:" + o["instance"])
 
 
 def controls(pctx, rep):
